@@ -30,7 +30,7 @@ import (
 //vp:all model (*github.com/bolkedebruin/rdpgw/cmd/rdpgw/transport.LegacyPKT).WritePacket = vpmLGWrite
 //vp:all model (*github.com/bolkedebruin/rdpgw/cmd/rdpgw/transport.LegacyPKT).Close = vpmLGClose
 //vp:all model (*github.com/bolkedebruin/rdpgw/cmd/rdpgw/transport.LegacyPKT).SendAccept = vpmLGSendAccept
-//vp:all model (*github.com/bolkedebruin/rdpgw/cmd/rdpgw/transport.LegacyPKT).Drain = vpmLGDrain
+//vp:all model (*github.com/bolkedebruin/rdpgw/cmd/rdpgw/transport.LegacyPKT).Drain = vpmLGDrainE
 //vp:all stub (*github.com/gorilla/websocket.Upgrader).Upgrade = vpUpgrade
 //vp:all stub (*github.com/gorilla/websocket.Conn).Close = vpWSConnClose
 //vp:all stub (*github.com/gorilla/websocket.Conn).UnderlyingConn = vpWSUnderlying
@@ -80,7 +80,16 @@ func vpNewLegacy(w http.ResponseWriter) (*vpTransport, error) {
 }
 
 func (t *vpTransport) SendAccept(seed bool) { t.accepts++ }
-func (t *vpTransport) Drain()               { t.drains++ }
+
+// Drain reads the client's first bytes; it fails when the connection is dropped before any arrive.
+// (It returns an error so that callers may or may not look at it.)
+func (t *vpTransport) Drain() error {
+	t.drains++
+	if t.drainFails {
+		return errors.New("vp: connection closed before the first byte")
+	}
+	return nil
+}
 
 func vpmWSRead(w *transport.WSPKT) (int, []byte, error) {
 	return (*vpTransport)(unsafe.Pointer(w)).ReadPacket()
@@ -100,6 +109,9 @@ func vpmLGSendAccept(w *transport.LegacyPKT, seed bool) {
 	(*vpTransport)(unsafe.Pointer(w)).SendAccept(seed)
 }
 func vpmLGDrain(w *transport.LegacyPKT) { (*vpTransport)(unsafe.Pointer(w)).Drain() }
+func vpmLGDrainE(w *transport.LegacyPKT) error {
+	return (*vpTransport)(unsafe.Pointer(w)).Drain()
+}
 
 var vpUpgradeFails bool
 var vpWSConnCloses int
